@@ -181,7 +181,7 @@ proof fn recvd_push(s: Seq<Event>, e: Event) ensures recvd_bytes(s.push(e)) == r
 
 // ---------- build.rs ----------
 //@ extract build.rs fn wait_for_sources_ticket
-//@ props C01 C03 C04 C05
+//@ props C01 C02 C03 C04 C05 C17
 //@ ret res
 //@ param Tracked(net): Tracked<&mut Net>
 //@ addarg * /receiver\.recv/ Tracked(net)
@@ -234,7 +234,7 @@ spec fn tagged_ids(ss: Seq<(usize, Sender<Packet>)>) -> Seq<int> { ss.map_values
 
 // ---- thread body of a leaf (source file): closure #1 of build() ----
 //@ extract build.rs fn build closure 1
-//@ props C03 C04 C05 C01
+//@ props C03 C04 C05 C01 C02 C17
 //@ sig fn leaf_thread<SystemType: System>(system_clone: SystemType, blob: Blob, sender_vec: Vec<Sender<Packet>>, Tracked(net): Tracked<&mut Net>) -> (res: Result<WorkResult, BuildError>)
 //@ addarg * /handle_source_only_node|sender\.send/ Tracked(net)
 //@ spec
@@ -285,7 +285,7 @@ spec fn after_recvs(a: Seq<Event>, b: Seq<Event>, n: int) -> Seq<Event> { b.subr
 
 // ---- thread body of a rule: closure #2 of build() ----
 //@ extract build.rs fn build closure 2
-//@ props C01 C03 C04 C05
+//@ props C01 C02 C03 C04 C05 C17
 //@ sig fn node_thread<SystemType: System>(system_clone: SystemType, blob: Blob, receiver_vec: Vec<Receiver<Packet>>, sender_vec: Vec<(usize, Sender<Packet>)>, node: Node, rule_history: RuleHistory, cache_clone: SysCache<SystemType>, downloader_cache_clone: DownloaderCache, downloader_rule_history: DownloaderRuleHistory, Tracked(net): Tracked<&mut Net>) -> (res: Result<WorkResult, BuildError>)
 //@ addarg * /wait_for_sources_ticket|handle_rule_node|sender\.send/ Tracked(net)
 //@ spec
@@ -348,7 +348,7 @@ spec fn after_recvs(a: Seq<Event>, b: Seq<Event>, n: int) -> Seq<Event> { b.subr
                                     proof { assert(tagged_ids(sender_vec@)[it.index@] == sender.id()); }
 //@ hint before 2/3 /match sender\.send\(/
                                     let ghost l0 = net.log;
-                                    proof { assert(tagged_ids(sender_vec@)[it.index@] == sender.id()); assert(sender_vec@[it.index@].0 == sub_index); }
+                                    proof { assert(tagged_ids(sender_vec@)[it.index@] == sender.id()); }      // (the binder of the tag is not named here: a change of its name must not cost the proof)
 //@ hint before 3/3 /match sender\.send\(/
                                     let ghost l0 = net.log;
                                     proof { assert(tagged_ids(sender_vec@)[it.index@] == sender.id()); }
